@@ -425,6 +425,28 @@ def family_A(tier):
                            "tags": ['assign:' + pname, 'ty:' + tname, 'in:loop']}
 
 
+    # the value of a branch / arm is a handle expression: the handled call's value or, when it raises, the arm's
+    risky = ('fun', 'risky', [('k', 'Int', None)], 'Int', ['E1'], [('if', ('bin', '>', var('k'), lit_int(2)), [('raise', ('new', 'E1', [lit_str("big")]))], None), ('expr', ('bin', '+', var('k'), lit_int(1)))], 'block')
+    h = lambda arg: ('handle', ('expr', ('call', 'risky', [arg])), [('err', 'E1', [('expr', lit_int(7))])])
+    hl = lambda arg: ('handle', ('expr', ('call', 'risky', [arg])), [('err', 'E1', [('expr', lit_int(7))], 'line')])
+    for sel in (0, 1, 5):
+        shapes = {
+            'defif-handle-then': [('defif', 'r', 'Int', ('bin', '>', var('n'), lit_int(0)), [h(var('v'))], [('expr', lit_int(1))])],
+            'defif-handle-else': [('defif', 'r', 'Int', ('bin', '>', var('n'), lit_int(0)), [('expr', lit_int(1))], [hl(var('v'))])],
+            'defif-handle-both': [('defif', 'r', 'Int', ('bin', '>', var('n'), lit_int(0)), [('print', lit_str("t")), h(var('v'))], [h(lit_int(9))])],
+            'defmatch-handle': [('defmatch', 'r', 'Int', var('n'), [(lit_int(1), [h(var('v'))]), ('_', [('expr', lit_int(2))])])],
+        }
+        for v in (1, 5):
+            for pname, body in shapes.items():
+                n += 1
+                yield {"id": "A%d" % n, "family": "A.handle", "prog": EXC_DECLS[:1] + [risky, ('fun', 'pick', [('n', 'Int', None), ('v', 'Int', None)], 'Int', [], body + [('expr', ('bin', '*', var('r'), lit_int(10)))], 'block'),
+                                                                                   ('print', ('call', 'pick', [lit_int(sel), lit_int(v)]))],
+                       "tags": ['assign:' + pname, 'ty:Int', 'in:function', 'tail:handle']}
+                n += 1
+                yield {"id": "A%d" % n, "family": "A.handle", "prog": EXC_DECLS[:1] + [risky, ('def', 'n', 'Int', lit_int(sel), False), ('def', 'v', 'Int', lit_int(v), False)] + body + [('print', var('r'))],
+                       "tags": ['assign:' + pname, 'ty:Int', 'tail:handle']}
+
+
 # ---------------------------------------------------------------- classes (O)
 
 def family_O(tier):
@@ -466,6 +488,37 @@ def family_O(tier):
                                                   ('init', [('n', 'Int', None)], [('assign', ('field', var('self'), 'v'), ('bin', '*', var('n'), I(2)))]),
                                                   ('fun', 'get', [], 'Int', [], [('expr', ('field', var('self'), 'v'))])]),
                         ('def', 'o', None, ('new', 'C', [I(21)]), False), ('print', ('mcall', var('o'), 'get', []))], ['explicit-init'])
+    # explicit __init__ x {one line, block, two statements} x {no parent, parent without arguments, parent with a
+    # literal argument, exception parent}: parents are initialised first, then the constructor body runs
+    for form in ('line', 'block', 'two'):
+        for parent in ('none', 'plain', 'lit', 'exception'):
+            ibody = [('assign', ('field', var('self'), 'w'), var('k'))]
+            if form == 'two':
+                ibody.append(('assign', ('field', var('self'), 'w'), ('bin', '+', ('field', var('self'), 'w'), I(1))))
+            init = ('init', [('k', 'Int', None)], ibody) + (('line',) if form == 'line' else ())
+            pre, parents, uses = [], [], []
+            if parent == 'plain':
+                pre = [('class', 'Base', [], [], [('field', 'v', 'Int', I(3), False), ('fun', 'get', [], 'Int', [], [('expr', ('field', var('self'), 'v'))])])]
+                parents = [('Base', None)]
+                uses = [('print', ('mcall', var('o'), 'get', []))]
+            elif parent == 'lit':
+                pre = [('class', 'Base', [('x', 'Str', True)], [], [])]
+                parents = [('Base', [lit_str("fixed")])]
+                uses = [('print', ('field', var('o'), 'x'))]
+            elif parent == 'exception':
+                parents = [('Exception', None)]
+            prog = pre + [('class', 'Ch', [], parents, [('field', 'w', 'Int', I(0), False), init, ('fun', 'both', [], 'Int', [], [('expr', ('bin', '*', ('field', var('self'), 'w'), I(2)))])]),
+                          ('def', 'o', None, ('new', 'Ch', [I(5)]), False), ('print', ('mcall', var('o'), 'both', [])), ('print', ('field', var('o'), 'w'))] + uses + \
+                   [('assign', ('field', var('o'), 'w'), I(9)), ('print', ('mcall', var('o'), 'both', []))]
+            yield emit('init-parent', prog, ['explicit-init', 'init:' + form, 'parent:' + parent])
+    # a field of class type: reads and updates through two field accesses, from outside and from a method
+    yield emit('nested-field', [('class', 'In', [('v', 'Int', True)], [], [('fun', 'get', [], 'Int', [], [('expr', ('field', var('self'), 'v'))])]),
+                                ('class', 'Out', [('i', 'In', True)], [], [
+                                    ('fun', 'bump', [], None, [], [('assign', ('field', ('field', var('self'), 'i'), 'v'), ('bin', '+', ('field', ('field', var('self'), 'i'), 'v'), I(1)))], 'block'),
+                                    ('fun', 'peek', [], 'Int', [], [('expr', ('mcall', ('field', var('self'), 'i'), 'get', []))])]),
+                                ('def', 'o', None, ('new', 'Out', [('new', 'In', [I(4)])]), False), ('assign', ('field', ('field', var('o'), 'i'), 'v'), I(5)),
+                                ('expr', ('mcall', var('o'), 'bump', [])), ('print', ('field', ('field', var('o'), 'i'), 'v')), ('print', ('mcall', ('field', var('o'), 'i'), 'get', [])),
+                                ('print', ('mcall', var('o'), 'peek', []))], ['nested-field'])
     # parent with arguments; child def field; override; inherited call
     for child_def in (True, False):
         prog = [('class', 'P', [('x', 'Int', True)], [], [('fun', 'px', [], 'Int', [], [('expr', ('field', var('self'), 'x'))]), ('fun', 'who', [], 'Str', [], [('expr', lit_str("P"))])]),
